@@ -214,6 +214,38 @@ def enumerate_cases(tier):
                                    "py": [29000, 7]}
 
 
+    # copies through the fixed-point temporary register xtmp, after the
+    # other temporaries (tmp, stmp, wtmp, swtmp) were used in the program
+    for touched in ([], ["stmp"], ["tmp"], ["wtmp", "stmp"], ["swtmp"]):
+        for decls, regs, leaf, name in leaves:
+            for dfmt in ("x", "q", "i"):
+                yield {"decls": decls + [{"name": "d", "kind": "local",
+                                          "fmt": dfmt}], "regs": regs,
+                       "mode": "copy", "dst": ["var", "d"], "expr": leaf,
+                       "via_tmp": touched, "py": [29000, 7],
+                       "vectors": [{name: v, "d": 0}
+                                   for v in (250000, 7, 0, 1234567)]}
+        for src in (["dec", 250000], ["const", 12], ["dec", 7]):
+            yield {"decls": [{"name": "d", "kind": "map", "fmt": "x"}],
+                   "regs": [], "mode": "copy", "dst": ["var", "d"],
+                   "expr": src, "via_tmp": touched, "py": [29000, 7],
+                   "vectors": [{"d": 0}]}
+    # conversion in place: the integer and the fixed-point view of the
+    # same register on both sides of a copy
+    for no in (3, 0, 8):
+        for view in ("sr", "r", "sw", "w"):
+            yield {"decls": [], "regs": [{"no": no, "view": view}],
+                   "mode": "copy", "dst": ["reg", "x", no],
+                   "expr": ["reg", view, no], "py": [29000, 7],
+                   "vectors": [{f"r{no}": v} for v in (7, 0, 12345, 3 * BASE)]
+                   + ([{f"r{no}": -12}] if view[0] == "s" else [])}
+            yield {"decls": [], "regs": [{"no": no, "view": "x"}],
+                   "mode": "copy", "dst": ["reg", view, no],
+                   "expr": ["reg", "x", no], "py": [29000, 7],
+                   "vectors": [{f"r{no}": v}
+                               for v in (250000, 0, 99999, 1234567)]}
+
+
 # ------------------------------------------------------------------ oracle
 
 class Unjudged(Exception):
@@ -435,6 +467,15 @@ def run_case(case):
             with CMPS[case["cmp"]](to_dsl(expr, e), to_dsl(case["rhs"], e)):
                 e.append(Opcode.ST + Opcode.B, 9, 0,
                          prog.layout.extra_out, 1)
+        elif case.get("via_tmp"):
+            # the value travels through the fixed-point temporary register,
+            # after the other temporaries were in use
+            for t in case["via_tmp"]:
+                with getattr(e, t):
+                    setattr(e, t, 1)
+            with e.xtmp:
+                e.xtmp = to_dsl(expr, e)
+                c01.assign(e, case["dst"], e.xtmp)
         else:
             c01.assign(e, case["dst"], to_dsl(expr, e))
         e.py1 = e.py0
@@ -465,7 +506,10 @@ def run_case(case):
         else:
             kinds(case["rhs"], fm, ks)
         mixes = any(k in ("F", "d", "->F") for k in ks)
-        key = repr((mode, shape(expr, fm), ks[-1], case.get("cmp")))
+        key = repr((mode, shape(expr, fm), ks[-1], case.get("cmp"))
+                   + ((tuple(case["via_tmp"]),) if "via_tmp" in case else ()))
+        if "via_tmp" in case:
+            classes.append("through-xtmp")
         judged = 0
         # ---- python-side path: assign decimals through the descriptor
         e = prog.ebpf
